@@ -54,6 +54,39 @@ def gen_items(vseed, tier, n):
     return items[:n]
 
 
+NEPS = {"quick": 400, "thorough": 4000}
+
+
+def gen_eps_items(vseed, tier):
+    """Epsilon-rich random CFGs (hidden recursion through nullable symbols), GLR
+    only, a dozen very short inputs each: the shapes on which the GLR driver
+    revisits several already processed heads when a new link appears.  Order
+    sensitivity there is rare (measured with a seeded change: ~1 grammar in 120),
+    hence many cheap items."""
+    def one(i):
+        rng = core.rng_for(vseed, PROP, f"eps-item-{i}")
+        esc = pool.make_scenario(rng, ["random-eps"])
+        ev = rng.randrange(len(esc["texts"]))
+        alpha = sorted(esc["models"][ev].terms)
+        eins = [pool.gen_input(rng, esc, version=ev, p_damage=0.0)[0] for _ in range(3)]
+        eins += [" ".join(rng.choice(alpha) for _ in range(rng.randint(1, 4))) for _ in range(9)]
+        return {"family": "random-eps", "text": esc["texts"][ev], "recs": {},
+                "tables": [{"tables": "LALR", "ps": False, "pse": False, "ld": None}],
+                "inputs": sorted(set(eins)),
+                "parsers": [{"name": "glr", "kind": "glr"}]}
+
+    # generation includes the deterministic construction-budget filter (a forked
+    # child per candidate), so it is spread over the worker pool
+    res = core.run_pool(one, range(NEPS[tier]))
+    items = []
+    for i in range(NEPS[tier]):
+        if isinstance(res[i], dict) and "family" in res[i]:
+            items.append(res[i])
+        else:
+            raise core.HarnessError(f"eps item generation failed: {res[i]}")
+    return items
+
+
 def corpus_items():
     base = core.PARGLARE_SRC if os.path.isdir(os.path.join(core.PARGLARE_SRC, "tests")) else "/repo"
     files = sorted(glob.glob(os.path.join(base, "tests", "**", "*.pg"), recursive=True)
@@ -146,8 +179,10 @@ def check(tier, vseed, args):
     if tier == "quick":
         heavy = [it for it in heavy if _weight(it) == 1]
     items = gen_items(vseed, tier, n) + light
-    shards = [[it] for it in heavy] + [items[i:i + SHARD] for i in range(0, len(items), SHARD)]
-    items = heavy + items
+    eps = gen_eps_items(vseed, tier) if not args.runs else []
+    shards = ([[it] for it in heavy] + [items[i:i + SHARD] for i in range(0, len(items), SHARD)]
+              + [eps[i:i + 4 * SHARD] for i in range(0, len(eps), 4 * SHARD)])
+    items = heavy + items + eps
     base = os.path.join(core.SHM, f"pgsim-c16-{os.getpid()}")
     shutil.rmtree(base, ignore_errors=True)
     os.makedirs(base)
